@@ -2,6 +2,7 @@
 import cmath
 import numpy as np
 import vlib
+from props._loopir import loopir_tie, TRUSTED_LINE
 from vlib import cz, czl, tolq, fc, fcl, fl
 
 LEVEL_TEXT = ("Coq theorems (abstract field with conjugation + twiddle character of exact period NFFT; order clauses in the ordered "
@@ -16,6 +17,8 @@ LEVEL_TEXT = ("Coq theorems (abstract field with conjugation + twiddle character
 TRUSTED = ["Coq 8.16.1 kernel + vm_compute", "hand-written models coq/Model/Minvar.v and Model/Burg.v (tie = correspondence runs)",
            "binary64 runs use a harness-supplied twiddle table exp(-2 pi i j/n) and a tolerance; numpy.fft is modelled as the DFT sum",
            "Python harness; numpy.linalg.solve in the search oracle"]
+TRUSTED = TRUSTED + [TRUSTED_LINE]
+LEVEL_TEXT = LEVEL_TEXT + (" Additionally the hand-written model is tied to the source text: a deep-embedded loop-IR program is regenerated from the Python source of the psi loop of minvar on every run (fail-closed ast translator) and evaluated by the Coq interpreter at the exact instance against the model with zero tolerance (same outcome, every entry equal).")
 UNPROVED = ["every clause of the statement is proved for NFFT >= 2m-1 in exact arithmetic (R^-1 e is quantified as 'every y with R y = e')",
             "aliased grids NFFT < 2m-1 (outside the property; the pinned test lives there): modelled exactly, correspondence only",
             "binary64 rounding of the implementation: tolerance runs only",
@@ -191,6 +194,7 @@ def run(ctx):
     from spectrum import minvar, arburg
     rng = ctx.rng
     ctx.check_theorems('Properties/C16.v')
+    loopir_tie(ctx, ['minvar_psi', 'arburg'])      # IR programs regenerated from the source vs the model: exact, zero tolerance
 
     # ------------------------------------------------------------------ exact correspondence at Gaussian rationals
     cases = []; meta = []
